@@ -1,5 +1,6 @@
-"""C06 = rejected operations of the `state` scenario + failing include loads of the `includes` scenario."""
+"""C06 = rejected operations of the `state` scenario + failing include loads of the `includes` scenario + rejected
+assignments on configurations older than parts of their schema (`growth`)."""
 from ..engine import MultiScenario
-from . import includes, state
+from . import growth, includes, state
 
-SCENARIO = MultiScenario("C06", [(0.8, state.C06), (0.2, includes.C06)])
+SCENARIO = MultiScenario("C06", [(0.75, state.C06), (0.19, includes.C06), (0.06, growth.SCENARIOS["C06"])])
